@@ -220,7 +220,7 @@ pub(crate) fn post_step<T: Tables, const NB: usize>(st: Step<NB>, r: StateResult
                 assert!(l.tag_start.is_none(), "[C09] outside '<'..tag-name no tag start is held back");
             }
             assert!(l.ch_sequence_matching_start.is_none(), "[C09] no look-ahead is pending after a transition");
-            assert!(inv(&l, nreq, nhold, nseq, T::dist(nid), input), "[C01,C09] the successor state's representation invariant holds");
+            assert!(inv(&l, nreq, nhold, nseq, T::dist(nid), input), "[C01,C09,C15] the successor state's representation invariant holds");
             if hints == 1 {
                 assert!(!l.is_in_end_tag, "[C06] the end-tag marker is reset when the tag name is complete");
             }
